@@ -68,10 +68,13 @@ def build_generated(name, mains, inc, extra_cpp):
     jobs = []
     objs = []
     mainobjs = {}
+    # the generated tables are compiled with the compiler's default diagnostics (no -w): what a user's toolchain rejects
+    # (e.g. a narrowing conversion inside a table initializer) must be rejected here too
+    strict = [f for f in flags if f != '-w']
     for i, s in enumerate(lib + list(extra_cpp)):
         o = os.path.join(outdir, '%d.o' % i)
         objs.append(o)
-        jobs.append((s, o, flags))
+        jobs.append((s, o, strict if s in set(extra_cpp) else flags))
     for m in mains:
         o = os.path.join(outdir, 'main-%s.o' % m.replace('.cpp', ''))
         mainobjs[m.replace('.cpp', '')] = o
@@ -166,7 +169,7 @@ def gen_policy(rnd, name):
     nper = rnd.choice([1, 1, 2])
     y = rnd.choice([1988, 1991, 1994, 1996])     # starts before the window, so the era's initial state is defined by the rules
     letters = rnd.choice([('S', 'D'), ('-', 'S'), ('S', 'D')])
-    save = rnd.choice(['1:00', '1:00', '0:30', '2:00'])
+    save = rnd.choice(['1:00', '1:00', '0:30', '2:00', '0:20'])      # 0:20 is not a multiple of the 15 minutes both table formats hold
     for p in range(nper):
         last = p == nper - 1
         to = 'max' if (last and rnd.random() < 0.7) else str(y + rnd.choice([0, 2, 5, 9]))
@@ -220,7 +223,7 @@ def _gen_zone(rnd, k):
         eras = []
         for e in range(neras):
             # (a first era in permanent DST has no agreed meaning before its first transition: TZif readers differ)
-            rules = rnd.choice(['-', pol, pol, '1:00']) if e > 0 else rnd.choice(['-', pol, pol])
+            rules = rnd.choice(['-', pol, pol, '1:00', '0:20']) if e > 0 else rnd.choice(['-', pol, pol])
             if rules == pol:
                 fmt = rnd.choice(['TE%sT', 'STD/DST', 'XY%sZ'])   # abbreviations of 3..6 characters (POSIX)
                 used_pol = True
